@@ -259,6 +259,14 @@ def run(res):
     cov = res.coverage
     rng = C.Rng(res.seed)
     cs = cases(rng, tier)
+    # every case twice: ended by an explicit cancel, and ended like an expired deadline (context.DeadlineExceeded)
+    dl = []
+    for c in cs:
+        d = dict(c)
+        d["id"] = c["id"] + "-dl"
+        d["mode"] = "deadline"
+        dl.append(d)
+    cs = cs + dl
     by_id = {c["id"]: c for c in cs}
     C.log("C06: %d cases" % len(cs))
 
@@ -284,7 +292,8 @@ def run(res):
     # implementation: the cases in shards (each case measures its own goroutines, so shards are separate processes);
     # thorough repeats under GOMAXPROCS 1, 2 and the default
     bad = malformed(rng, tier)
-    ilines = [json.dumps({"id": c["id"], "src": program(c["shape"]), "instant": c["instant"], "delay_us": c["delay_us"]}) for c in cs]
+    ilines = [json.dumps({"id": c["id"], "src": program(c["shape"]), "instant": c["instant"], "delay_us": c["delay_us"],
+                          "mode": c.get("mode", "cancel")}) for c in cs]
     ilines += [json.dumps({"id": c["id"], "src": c["src"], "instant": c["instant"], "delay_us": 0}) for c in bad]
     procs = [None] if tier == "quick" else [None, "1", "2"]
     impl_runs = []
@@ -344,7 +353,7 @@ def run(res):
             ec = ec.split(" ")[0]
             errhist[ec] = errhist.get(ec, 0) + 1
             m = model_out[c["mkey"]]
-            info = {"case": c["id"], "shape": toks(c["shape"]), "src": program(c["shape"]), "instant": c["instant"], "delay_us": c["delay_us"],
+            info = {"case": c["id"], "ended_by": c.get("mode", "cancel"), "shape": toks(c["shape"]), "src": program(c["shape"]), "instant": c["instant"], "delay_us": c["delay_us"],
                     "gomaxprocs": gmp, "observed": {"returned": returned, "latency_us": int(lat_us), "err": ec, "value": val,
                                                     "ticks": [int(t_ret), int(t_b), int(t_c)], "goroutines": [int(g0), int(g_after)],
                                                     "settled": settled}, "model": m}
